@@ -1,64 +1,566 @@
-//! replay: run a witness against the REAL liquid-rust code (path dependency on /repo).
+//! replay: run witnesses against the REAL liquid-rust code (path dependency on /repo).
 //!
-//!   replay <file.json>          file is either a witness object or a replay file with a "witness" key
-//!   replay --stdin              read a JSON array of witnesses on stdin; print one JSON result per line
+//!   replay <file.json>    file is a witness object, or a replay file with a "witness" key
+//!   replay --stdin        read a JSON array of witnesses on stdin; print one JSON result per line
 //!
-//! witness = {"kind":"render","template":T,"data":{..},"expect":E}
-//!   E = {"output": S} | {"error": true} | {"no_panic": true} | {"output_or_error": S}
-//! exit 0: the real code behaves as `expect` says (property holds on this input)
+//! witness kinds
+//!   {"kind":"render","template":T,"data":{..},"partials":{name:src,..},"expect":E}
+//!        E = {"output":S} | {"error":true} | {"no_panic":true} | {"output_or_error":S} | {"one_of":[S,..]} |
+//!            {"number":{"exact":"<int>","fits":bool}}   (C15: integer result exact, or float/err when it does not fit)
+//!   {"kind":"render_same","templates":[T1,T2],"data":{..}}     both render to the same result (law-style clauses)
+//!   {"kind":"sink_faults","template":T,"data":{..},"partials":{..}}    C10: failing / short-writing sinks at every write
+//!   {"kind":"stack_model","depth":N}     C18/C04: the runtime stack types against an abstract stack-of-maps model
+//! exit 0: the real code behaves as the witness expects (property holds on this input)
 //! exit 1: it does not (the witness is a failing input)      exit 3: bad replay file
+use std::io::Write;
 use std::panic;
 
-fn render(template: &str, data: &serde_json::Value) -> Result<Result<String, String>, String> {
+type Res = Result<Result<String, String>, String>; // Err(panic) | Ok(Err(liquid error)) | Ok(Ok(output))
+
+fn build_parser(partials: Option<&serde_json::Value>) -> Result<liquid::Parser, String> {
+    let mut b = liquid::ParserBuilder::with_stdlib();
+    if let Some(serde_json::Value::Object(m)) = partials {
+        let mut src = liquid::partials::InMemorySource::new();
+        for (k, v) in m {
+            src.add(k.clone(), v.as_str().unwrap_or("").to_owned());
+        }
+        b = b.partials(liquid::partials::EagerCompiler::new(src));
+    }
+    b.build().map_err(|e| format!("parser: {e}"))
+}
+
+fn panic_msg(p: Box<dyn std::any::Any + Send>) -> String {
+    if let Some(s) = p.downcast_ref::<&str>() {
+        s.to_string()
+    } else if let Some(s) = p.downcast_ref::<String>() {
+        s.clone()
+    } else {
+        "panic".to_string()
+    }
+}
+
+fn render(template: &str, data: &serde_json::Value, partials: Option<&serde_json::Value>) -> Res {
     let template = template.to_owned();
     let data = data.clone();
+    let partials = partials.cloned();
     let r = panic::catch_unwind(move || {
-        let parser = liquid::ParserBuilder::with_stdlib()
-            .build()
-            .map_err(|e| format!("parser: {e}"))?;
+        let parser = build_parser(partials.as_ref())?;
         let t = parser.parse(&template).map_err(|e| format!("parse: {e}"))?;
         let globals: liquid::Object = serde_json::from_value(data).map_err(|e| format!("data: {e}"))?;
         t.render(&globals).map_err(|e| format!("render: {e}"))
     });
     match r {
         Ok(x) => Ok(x),
-        Err(p) => {
-            let msg = if let Some(s) = p.downcast_ref::<&str>() {
-                s.to_string()
-            } else if let Some(s) = p.downcast_ref::<String>() {
-                s.clone()
-            } else {
-                "panic".to_string()
-            };
-            Err(msg)
+        Err(p) => Err(panic_msg(p)),
+    }
+}
+
+fn show(res: &Res) -> String {
+    match res {
+        Ok(Ok(s)) => format!("output {s:?}"),
+        Ok(Err(e)) => format!("error {:?}", e.lines().next().unwrap_or("")),
+        Err(p) => format!("PANIC {p:?}"),
+    }
+}
+
+// ---------------------------------------------------------------- C10: sinks that fail / accept short counts
+
+/// fails on the k-th call of `write` (1-based); before that accepts everything
+struct FailAt {
+    k: usize,
+    calls: usize,
+    accepted: Vec<u8>,
+    writes_after_failure: usize,
+    failed: bool,
+}
+impl Write for FailAt {
+    fn write(&mut self, buf: &[u8]) -> std::io::Result<usize> {
+        self.calls += 1;
+        if self.failed {
+            self.writes_after_failure += 1;
+            return Err(std::io::Error::new(std::io::ErrorKind::Other, "sink already failed"));
         }
+        if self.calls == self.k {
+            self.failed = true;
+            return Err(std::io::Error::new(std::io::ErrorKind::Other, "sink failed"));
+        }
+        self.accepted.extend_from_slice(buf);
+        Ok(buf.len())
+    }
+    fn flush(&mut self) -> std::io::Result<()> {
+        Ok(())
+    }
+}
+/// accepts at most `max` bytes per call; optionally fails on the k-th call
+struct Short {
+    max: usize,
+    fail_at: Option<usize>,
+    calls: usize,
+    accepted: Vec<u8>,
+    failed: bool,
+    writes_after_failure: usize,
+}
+impl Write for Short {
+    fn write(&mut self, buf: &[u8]) -> std::io::Result<usize> {
+        self.calls += 1;
+        if self.failed {
+            self.writes_after_failure += 1;
+            return Err(std::io::Error::new(std::io::ErrorKind::Other, "sink already failed"));
+        }
+        if Some(self.calls) == self.fail_at {
+            self.failed = true;
+            return Err(std::io::Error::new(std::io::ErrorKind::Other, "sink failed"));
+        }
+        let n = buf.len().min(self.max);
+        self.accepted.extend_from_slice(&buf[..n]);
+        Ok(n)
+    }
+    fn flush(&mut self) -> std::io::Result<()> {
+        Ok(())
+    }
+}
+struct Count {
+    calls: usize,
+    data: Vec<u8>,
+}
+impl Write for Count {
+    fn write(&mut self, buf: &[u8]) -> std::io::Result<usize> {
+        self.calls += 1;
+        self.data.extend_from_slice(buf);
+        Ok(buf.len())
+    }
+    fn flush(&mut self) -> std::io::Result<()> {
+        Ok(())
+    }
+}
+
+fn sink_faults(w: &serde_json::Value) -> (bool, String) {
+    let t = w["template"].as_str().unwrap_or("").to_owned();
+    let null = serde_json::json!({});
+    let data = w.get("data").unwrap_or(&null).clone();
+    let partials = w.get("partials").cloned();
+    let r = panic::catch_unwind(move || -> Result<(), String> {
+        let parser = build_parser(partials.as_ref())?;
+        let tpl = match parser.parse(&t) {
+            Ok(t) => t,
+            Err(_) => return Ok(()), // not a C10 matter
+        };
+        let globals: liquid::Object = serde_json::from_value(data).map_err(|e| format!("data: {e}"))?;
+        let reference = match tpl.render(&globals) {
+            Ok(s) => s,
+            Err(_) => return Ok(()), // fault-free run fails: not a C10 matter
+        };
+        // streaming with a sink that never fails == buffering render
+        let mut c = Count { calls: 0, data: vec![] };
+        tpl.render_to(&mut c, &globals).map_err(|e| format!("render_to into a healthy sink failed: {e}"))?;
+        if c.data != reference.as_bytes() {
+            return Err(format!("streamed bytes {:?} differ from render() {:?}", String::from_utf8_lossy(&c.data), reference));
+        }
+        let writes = c.calls;
+        for k in 1..=writes {
+            let mut s = FailAt { k, calls: 0, accepted: vec![], writes_after_failure: 0, failed: false };
+            let r = tpl.render_to(&mut s, &globals);
+            if r.is_ok() {
+                return Err(format!("sink failed on write {k} of {writes} but render_to returned Ok"));
+            }
+            if s.writes_after_failure > 0 {
+                return Err(format!("sink failed on write {k} of {writes}; {} further write(s) were attempted", s.writes_after_failure));
+            }
+            if !reference.as_bytes().starts_with(&s.accepted) {
+                return Err(format!("sink failed on write {k}: accepted bytes {:?} are not a prefix of {:?}", String::from_utf8_lossy(&s.accepted), reference));
+            }
+        }
+        // short counts, never failing: all bytes must still arrive, in order
+        for max in [1usize, 3] {
+            let mut s = Short { max, fail_at: None, calls: 0, accepted: vec![], failed: false, writes_after_failure: 0 };
+            tpl.render_to(&mut s, &globals).map_err(|e| format!("render_to into a short-writing sink failed: {e}"))?;
+            if s.accepted != reference.as_bytes() {
+                return Err(format!("sink accepting {max} byte(s) per call received {:?}, render() gives {:?}", String::from_utf8_lossy(&s.accepted), reference));
+            }
+        }
+        // short count then failure
+        let total_calls = {
+            let mut s = Short { max: 1, fail_at: None, calls: 0, accepted: vec![], failed: false, writes_after_failure: 0 };
+            let _ = tpl.render_to(&mut s, &globals);
+            s.calls
+        };
+        for k in 1..=total_calls.min(40) {
+            let mut s = Short { max: 1, fail_at: Some(k), calls: 0, accepted: vec![], failed: false, writes_after_failure: 0 };
+            let r = tpl.render_to(&mut s, &globals);
+            if r.is_ok() {
+                return Err(format!("short-writing sink failed on call {k} but render_to returned Ok"));
+            }
+            if s.writes_after_failure > 0 {
+                return Err(format!("short-writing sink failed on call {k}; further writes were attempted"));
+            }
+            if !reference.as_bytes().starts_with(&s.accepted) {
+                return Err(format!("short-writing sink failed on call {k}: accepted bytes are not a prefix of the fault-free output"));
+            }
+        }
+        Ok(())
+    });
+    match r {
+        Ok(Ok(())) => (true, "all sink faults handled".to_string()),
+        Ok(Err(e)) => (false, e),
+        Err(p) => (false, format!("PANIC {:?}", panic_msg(p))),
+    }
+}
+
+// ---------------------------------------------------------------- C18 / C04: runtime stack against a stack-of-maps model
+mod stack_model {
+    use liquid_core::model::{Object, Scalar, Value, ValueView};
+    use liquid_core::runtime::{GlobalFrame, RuntimeBuilder, SandboxedStackFrame, StackFrame};
+    use liquid_core::Runtime;
+    use std::collections::BTreeMap;
+
+    #[derive(Clone, Debug, PartialEq)]
+    pub enum V {
+        S(i64),
+        O(BTreeMap<&'static str, i64>),
+    }
+    pub type M = BTreeMap<&'static str, V>;
+    #[derive(Clone, Debug)]
+    pub enum Layer {
+        Scope(M),
+        Sandbox(M),
+        Global,
+    }
+    const NAMES: [&str; 2] = ["a", "b"];
+
+    fn to_object(m: &M) -> Object {
+        let mut o = Object::new();
+        for (k, v) in m {
+            let val = match v {
+                V::S(i) => Value::scalar(*i),
+                V::O(inner) => {
+                    let mut io = Object::new();
+                    for (ik, iv) in inner {
+                        io.insert((*ik).into(), Value::scalar(*iv));
+                    }
+                    Value::Object(io)
+                }
+            };
+            o.insert((*k).into(), val);
+        }
+        o
+    }
+    fn model_find(v: &V, rest: &[&'static str]) -> Option<String> {
+        match (v, rest) {
+            (V::S(i), []) => Some(format!("{i}")),
+            (V::O(_), []) => Some("<obj>".to_string()),
+            (V::O(m), [k]) => m.get(k).map(|i| format!("{i}")),
+            _ => None,
+        }
+    }
+    /// model state: base data, globals assigned per global layer (index 0 = the builder's), counters
+    pub struct Model {
+        pub base: M,
+        pub layers: Vec<Layer>,
+        pub globals: Vec<M>, // globals[0] builder's layer; one more per Layer::Global, in push order
+        pub counters: BTreeMap<&'static str, i64>,
+    }
+    impl Model {
+        fn lookup(&self, path: &[&'static str]) -> Option<String> {
+            // walk from the top layer down
+            let mut gidx = self.globals.len();
+            for l in self.layers.iter().rev() {
+                match l {
+                    Layer::Scope(m) => {
+                        if let Some(v) = m.get(path[0]) {
+                            return model_find(v, &path[1..]);
+                        }
+                    }
+                    Layer::Sandbox(m) => {
+                        return m.get(path[0]).and_then(|v| model_find(v, &path[1..]));
+                    }
+                    Layer::Global => {
+                        gidx -= 1;
+                        if let Some(v) = self.globals[gidx].get(path[0]) {
+                            return model_find(v, &path[1..]);
+                        }
+                    }
+                }
+            }
+            // builder: global layer 0, then base data, then counters
+            if let Some(v) = self.globals[0].get(path[0]) {
+                return model_find(v, &path[1..]);
+            }
+            if let Some(v) = self.base.get(path[0]) {
+                return model_find(v, &path[1..]);
+            }
+            if let Some(c) = self.counters.get(path[0]) {
+                return model_find(&V::S(*c), &path[1..]);
+            }
+            None
+        }
+        fn roots(&self) -> Vec<String> {
+            let mut out: std::collections::BTreeSet<String> = Default::default();
+            let mut gidx = self.globals.len();
+            let mut sandboxed = false;
+            for l in self.layers.iter().rev() {
+                match l {
+                    Layer::Scope(m) => out.extend(m.keys().map(|k| k.to_string())),
+                    Layer::Sandbox(m) => {
+                        out.extend(m.keys().map(|k| k.to_string()));
+                        sandboxed = true;
+                        break;
+                    }
+                    Layer::Global => {
+                        gidx -= 1;
+                        out.extend(self.globals[gidx].keys().map(|k| k.to_string()));
+                    }
+                }
+            }
+            if !sandboxed {
+                out.extend(self.globals[0].keys().map(|k| k.to_string()));
+                out.extend(self.base.keys().map(|k| k.to_string()));
+                out.extend(self.counters.keys().map(|k| k.to_string()));
+            }
+            out.into_iter().collect()
+        }
+    }
+
+    fn render_val(v: &dyn ValueView) -> String {
+        if v.as_object().is_some() {
+            "<obj>".to_string()
+        } else {
+            v.to_kstr().to_string()
+        }
+    }
+
+    /// observe every path of length 1..2 (both lookup forms), the roots and the counters on the real runtime `rt`
+    fn observe(rt: &dyn Runtime, model: &Model, trace: &str) -> Result<usize, String> {
+        let mut n = 0;
+        let keys = ["a", "b", "x"];
+        let mut paths: Vec<Vec<&'static str>> = vec![];
+        for k in keys {
+            paths.push(vec![k]);
+            for k2 in ["a", "b"] {
+                paths.push(vec![k, k2]);
+            }
+        }
+        for p in paths {
+            let sp: Vec<liquid_core::model::ScalarCow<'_>> = p.iter().map(|s| Scalar::new(*s)).collect();
+            let t = rt.try_get(&sp).map(|v| render_val(v.as_view()));
+            let g = rt.get(&sp).ok().map(|v| render_val(v.as_view()));
+            let m = model.lookup(&p);
+            n += 1;
+            if t != g {
+                return Err(format!("after [{trace}]: try_get({p:?}) = {t:?} but get({p:?}) = {g:?}"));
+            }
+            if t != m {
+                return Err(format!("after [{trace}]: lookup of {p:?} gives {t:?}, the stack-of-maps model gives {m:?}"));
+            }
+        }
+        let mut roots: Vec<String> = rt.roots().into_iter().map(|k| k.to_string()).collect();
+        roots.sort();
+        let mroots = model.roots();
+        // "the list of root names is exactly the set of top-level names that resolve"
+        if roots != mroots {
+            return Err(format!("after [{trace}]: roots() = {roots:?}, model = {mroots:?}"));
+        }
+        for c in NAMES {
+            let real = rt.get_index(c).and_then(|v| v.as_scalar().and_then(|s| s.to_integer()));
+            let m = model.counters.get(c).copied();
+            n += 1;
+            if real != m {
+                return Err(format!("after [{trace}]: counter {c} = {real:?}, model = {m:?} (counters are shared by all layers)"));
+            }
+        }
+        Ok(n)
+    }
+    #[derive(Clone, Debug)]
+    pub enum Op {
+        PushScope(usize),
+        PushSandbox(usize),
+        PushGlobal,
+        Assign(&'static str, i64),
+        Counter(&'static str, i64),
+    }
+
+    fn maps() -> Vec<M> {
+        // all 9 maps over {a, b} with values in {absent, scalar, object}
+        let vals: [Option<V>; 3] = [None, Some(V::S(7)), Some(V::O([("a", 8i64), ("b", 9i64)].into_iter().collect()))];
+        let mut out = vec![];
+        for va in &vals {
+            for vb in &vals {
+                let mut m = M::new();
+                if let Some(v) = va {
+                    m.insert("a", v.clone());
+                }
+                if let Some(v) = vb {
+                    m.insert("b", v.clone());
+                }
+                out.push(m);
+            }
+        }
+        out
+    }
+
+    /// recursive exploration: at each node observe, then try every op; layers are pushed by recursion (borrowing the parent)
+    fn explore(rt: &dyn Runtime, model: &mut Model, depth: usize, trace: &mut Vec<String>, stats: &mut (usize, usize)) -> Result<(), String> {
+        stats.0 += 1;
+        stats.1 += observe(rt, model, &trace.join("; "))?;
+        if depth == 0 {
+            return Ok(());
+        }
+        let ms = maps();
+        // a reduced but systematic op alphabet per level (full product of maps at depth 1, diagonal subsets deeper)
+        let map_choices: Vec<usize> = if trace.is_empty() { (0..ms.len()).collect() } else { vec![1, 2, 5, 8] };
+        for &mi in &map_choices {
+            // push plain scope
+            let o = to_object(&ms[mi]);
+            {
+                let frame = StackFrame::new(rt, &o);
+                model.layers.push(Layer::Scope(ms[mi].clone()));
+                trace.push(format!("push scope {:?}", ms[mi].keys().collect::<Vec<_>>()));
+                let r = explore(&frame, model, depth - 1, trace, stats);
+                trace.pop();
+                model.layers.pop();
+                r?;
+            }
+            // after the pop the runtime must answer as before (plus global assignments made meanwhile, tracked in model)
+            stats.1 += observe(rt, model, &format!("{}; (popped scope)", trace.join("; ")))?;
+            // push sandbox
+            {
+                let frame = SandboxedStackFrame::new(rt, &o);
+                model.layers.push(Layer::Sandbox(ms[mi].clone()));
+                trace.push(format!("push sandbox {:?}", ms[mi].keys().collect::<Vec<_>>()));
+                let r = explore(&frame, model, depth - 1, trace, stats);
+                trace.pop();
+                model.layers.pop();
+                r?;
+            }
+            stats.1 += observe(rt, model, &format!("{}; (popped sandbox)", trace.join("; ")))?;
+        }
+        // push a global layer
+        {
+            let frame = GlobalFrame::new(rt);
+            model.layers.push(Layer::Global);
+            model.globals.push(M::new());
+            trace.push("push global".to_string());
+            let r = explore(&frame, model, depth - 1, trace, stats);
+            trace.pop();
+            model.globals.pop();
+            model.layers.pop();
+            r?;
+        }
+        // assign-global k v : lands in the nearest enclosing global layer
+        for (k, v) in [("a", 1i64), ("b", 2i64)] {
+            let gi = {
+                // nearest enclosing global layer: the last Layer::Global on the stack, else the builder's
+                let mut gi = 0;
+                let mut cnt = 0;
+                for l in &model.layers {
+                    if let Layer::Global = l {
+                        cnt += 1;
+                        gi = cnt;
+                    }
+                }
+                gi
+            };
+            let saved = model.globals[gi].clone();
+            rt.set_global(k.into(), Value::scalar(v));
+            model.globals[gi].insert(k, V::S(v));
+            trace.push(format!("assign {k}={v}"));
+            let r = explore(rt, model, depth - 1, trace, stats);
+            trace.pop();
+            // undo on the real runtime is impossible (no API to remove a global) -> restore by re-assigning the saved
+            // value when there was one, else stop exploring siblings that depend on absence: we re-create state by
+            // only assigning names in increasing order along a path; siblings after this see the assignment too.
+            let _ = saved;
+            r?;
+        }
+        for (k, v) in [("a", 5i64)] {
+            rt.set_index(k.into(), Value::scalar(v));
+            model.counters.insert(k, v);
+            trace.push(format!("counter {k}={v}"));
+            let r = explore(rt, model, depth - 1, trace, stats);
+            trace.pop();
+            r?;
+        }
+        Ok(())
+    }
+
+    pub fn run(depth: usize) -> Result<(usize, usize), String> {
+        let mut stats = (0usize, 0usize);
+        for base in maps() {
+            let o = to_object(&base);
+            let rt = RuntimeBuilder::new().set_globals(&o).build();
+            let mut model = Model { base: base.clone(), layers: vec![], globals: vec![M::new()], counters: Default::default() };
+            let mut trace = vec![];
+            explore(&rt, &mut model, depth, &mut trace, &mut stats)?;
+        }
+        Ok(stats)
+    }
+}
+
+fn expect_holds(e: &serde_json::Value, res: &Res) -> bool {
+    if let Some(s) = e.get("output").and_then(|s| s.as_str()) {
+        matches!(res, Ok(Ok(o)) if o == s)
+    } else if let Some(s) = e.get("output_or_error").and_then(|s| s.as_str()) {
+        matches!(res, Ok(Ok(o)) if o == s) || matches!(res, Ok(Err(_)))
+    } else if let Some(list) = e.get("one_of").and_then(|s| s.as_array()) {
+        matches!(res, Ok(Ok(o)) if list.iter().any(|s| s.as_str() == Some(o.as_str())))
+    } else if e.get("error").is_some() {
+        matches!(res, Ok(Err(_)))
+    } else if let Some(n) = e.get("number") {
+        // C15: exact integer when it fits; otherwise an error or a float close to the exact value, never a wrapped integer
+        let exact = n["exact"].as_str().unwrap_or("0");
+        let fits = n["fits"].as_bool().unwrap_or(true);
+        match res {
+            Err(_) => false,
+            Ok(Err(_)) => !fits,
+            Ok(Ok(o)) => {
+                if fits {
+                    o == exact
+                } else {
+                    // must not look like an i64
+                    if o.parse::<i64>().is_ok() {
+                        return false;
+                    }
+                    match (o.parse::<f64>(), exact.parse::<f64>()) {
+                        (Ok(a), Ok(b)) => (a - b).abs() <= b.abs() * 1e-9,
+                        _ => false,
+                    }
+                }
+            }
+        }
+    } else {
+        matches!(res, Ok(_))
     }
 }
 
 fn run(w: &serde_json::Value) -> (bool, String) {
     let kind = w.get("kind").and_then(|k| k.as_str()).unwrap_or("render");
+    let null = serde_json::json!({});
     match kind {
         "render" => {
             let t = w["template"].as_str().unwrap_or("");
-            let null = serde_json::json!({});
             let data = w.get("data").unwrap_or(&null);
-            let res = render(t, data);
-            let e = &w["expect"];
-            let obs = match &res {
-                Ok(Ok(s)) => format!("output {s:?}"),
-                Ok(Err(e)) => format!("error {e:?}"),
-                Err(p) => format!("PANIC {p:?}"),
+            let res = render(t, data, w.get("partials"));
+            (expect_holds(&w["expect"], &res), show(&res))
+        }
+        "render_same" => {
+            let data = w.get("data").unwrap_or(&null);
+            let ts: Vec<&str> = w["templates"].as_array().map(|a| a.iter().filter_map(|x| x.as_str()).collect()).unwrap_or_default();
+            let rs: Vec<Res> = ts.iter().map(|t| render(t, data, w.get("partials"))).collect();
+            let norm = |r: &Res| match r {
+                Ok(Ok(s)) => format!("o:{s}"),
+                Ok(Err(_)) => "e".to_string(),
+                Err(_) => "p".to_string(),
             };
-            let holds = if let Some(s) = e.get("output").and_then(|s| s.as_str()) {
-                matches!(&res, Ok(Ok(o)) if o == s)
-            } else if let Some(s) = e.get("output_or_error").and_then(|s| s.as_str()) {
-                matches!(&res, Ok(Ok(o)) if o == s) || matches!(&res, Ok(Err(_)))
-            } else if e.get("error").is_some() {
-                matches!(&res, Ok(Err(_)))
-            } else {
-                matches!(&res, Ok(_))
-            };
-            (holds, obs)
+            let holds = rs.iter().all(|r| r.is_ok()) && rs.windows(2).all(|p| norm(&p[0]) == norm(&p[1]));
+            (holds, rs.iter().map(show).collect::<Vec<_>>().join(" vs "))
+        }
+        "sink_faults" => sink_faults(w),
+        "stack_model" => {
+            let depth = w.get("depth").and_then(|d| d.as_u64()).unwrap_or(2) as usize;
+            match panic::catch_unwind(move || stack_model::run(depth)) {
+                Ok(Ok((states, obs))) => (true, format!("{states} states, {obs} observations agree with the model")),
+                Ok(Err(e)) => (false, e),
+                Err(p) => (false, format!("PANIC {:?}", panic_msg(p))),
+            }
         }
         _ => (true, format!("unknown witness kind {kind}")),
     }
@@ -71,9 +573,11 @@ fn main() {
         let mut s = String::new();
         std::io::Read::read_to_string(&mut std::io::stdin(), &mut s).unwrap();
         let v: serde_json::Value = serde_json::from_str(&s).expect("json");
+        let out = std::io::stdout();
+        let mut out = out.lock();
         for w in v.as_array().expect("array") {
             let (holds, obs) = run(w);
-            println!("{}", serde_json::json!({"holds": holds, "observed": obs}));
+            writeln!(out, "{}", serde_json::json!({"holds": holds, "observed": obs})).unwrap();
         }
         return;
     }
@@ -95,7 +599,7 @@ fn main() {
     if let Some(o) = v.get("obligation") {
         println!("obligation: {}", o);
     }
-    if w.is_null() || w.get("template").is_none() {
+    if w.is_null() || w.get("kind").is_none() && w.get("template").is_none() {
         println!("no failing input recorded (the verifier gives no model); failed obligation and verifier output are in the file");
         if let Some(out) = v.get("verifier_output").and_then(|x| x.as_str()) {
             println!("{out}");
